@@ -18,7 +18,9 @@ use ruma_common::{
     UserId,
 };
 use ruma_events::{
-    room::power_levels::{RoomPowerLevels, RoomPowerLevelsEventContent},
+    room::power_levels::{
+        NotificationPowerLevelType, PowerLevelAction, PowerLevelUserAction, RoomPowerLevels, RoomPowerLevelsEventContent,
+    },
     MessageLikeEventType, StateEventType,
 };
 use serde_json::{json, Value};
@@ -106,47 +108,75 @@ fn eval(case: &Case, t: &mut Tally) -> Vec<(String, String)> {
                 let room = room_with(v, &case.pl, target_m);
                 let r = catch(|| h.user_can_ban_user(actor, target));
                 let Ok(hv) = r else { out.push(("panic/helper".into(), r.unwrap_err().text)); return out };
-                cmp("user_can_ban_user", hv, auth_ok(v, &room, member(TARGET, "ban"), t), format!("target {target_m:?}"), t);
+                let a = auth_ok(v, &room, member(TARGET, "ban"), t);
+                cmp("user_can_do_to_user(Ban)", h.user_can_do_to_user(actor, target, PowerLevelUserAction::Ban), a.clone(), format!("target {target_m:?}"), t);
+                cmp("user_can_ban_user", hv, a, format!("target {target_m:?}"), t);
             }
             {
                 let room = room_with(v, &case.pl, Some("ban"));
-                cmp("user_can_unban_user", h.user_can_unban_user(actor, target), auth_ok(v, &room, member(TARGET, "leave"), t), "target banned".into(), t);
+                let a = auth_ok(v, &room, member(TARGET, "leave"), t);
+                cmp("user_can_do_to_user(Unban)", h.user_can_do_to_user(actor, target, PowerLevelUserAction::Unban), a.clone(), "target banned".into(), t);
+                cmp("user_can_unban_user", h.user_can_unban_user(actor, target), a, "target banned".into(), t);
                 // banning an already banned user follows the ban rule too
                 cmp("user_can_ban_user", h.user_can_ban_user(actor, target), auth_ok(v, &room, member(TARGET, "ban"), t), "target banned".into(), t);
             }
             for target_m in [Some("join"), Some("invite")] {
                 let room = room_with(v, &case.pl, target_m);
-                cmp("user_can_kick_user", h.user_can_kick_user(actor, target), auth_ok(v, &room, member(TARGET, "leave"), t), format!("target {target_m:?}"), t);
+                let a = auth_ok(v, &room, member(TARGET, "leave"), t);
+                cmp("user_can_do_to_user(Kick)", h.user_can_do_to_user(actor, target, PowerLevelUserAction::Kick), a.clone(), format!("target {target_m:?}"), t);
+                cmp("user_can_kick_user", h.user_can_kick_user(actor, target), a, format!("target {target_m:?}"), t);
             }
             for target_m in [Some("leave"), None, Some("knock")] {
                 if target_m == Some("knock") && v < 7 {
                     continue;
                 }
                 let room = room_with(v, &case.pl, target_m);
-                cmp("user_can_invite", h.user_can_invite(actor), auth_ok(v, &room, member(TARGET, "invite"), t), format!("target {target_m:?}"), t);
+                let a = auth_ok(v, &room, member(TARGET, "invite"), t);
+                cmp("user_can_do_to_user(Invite)", h.user_can_do_to_user(actor, target, PowerLevelUserAction::Invite), a.clone(), format!("target {target_m:?}"), t);
+                cmp("user_can_do(Invite)", h.user_can_do(actor, PowerLevelAction::Invite), a.clone(), format!("target {target_m:?}"), t);
+                cmp("user_can_invite", h.user_can_invite(actor), a, format!("target {target_m:?}"), t);
             }
         }
         "send" => {
             let room = room_with(v, &case.pl, None);
             for ty in ["m.room.message", "m.reaction", "x.custom"] {
                 let e = world::ev("$new:s1", SENDER, ty, None, json!({"body": "x"}));
+                let a = auth_ok(v, &room, e, t);
                 cmp(
-                    "user_can_send_message",
-                    h.user_can_send_message(actor, MessageLikeEventType::from(ty)),
-                    auth_ok(v, &room, e, t),
+                    "user_can_do(SendMessage)",
+                    h.user_can_do(actor, PowerLevelAction::SendMessage(MessageLikeEventType::from(ty))),
+                    a.clone(),
                     format!("type {ty}"),
                     t,
                 );
+                // the level accessors must tell the same story as the predicate
+                cmp(
+                    "for_user>=for_message",
+                    h.for_user(actor) >= h.for_message(MessageLikeEventType::from(ty)),
+                    a.clone(),
+                    format!("type {ty}"),
+                    t,
+                );
+                cmp("user_can_send_message", h.user_can_send_message(actor, MessageLikeEventType::from(ty)), a, format!("type {ty}"), t);
             }
             for ty in ["m.room.name", "m.room.topic", "x.custom"] {
                 let e = world::ev("$new:s1", SENDER, ty, Some(""), json!({"name": "x"}));
+                let a = auth_ok(v, &room, e, t);
                 cmp(
-                    "user_can_send_state",
-                    h.user_can_send_state(actor, StateEventType::from(ty)),
-                    auth_ok(v, &room, e, t),
+                    "user_can_do(SendState)",
+                    h.user_can_do(actor, PowerLevelAction::SendState(StateEventType::from(ty))),
+                    a.clone(),
                     format!("type {ty}"),
                     t,
                 );
+                cmp(
+                    "for_user>=for_state",
+                    h.for_user(actor) >= h.for_state(StateEventType::from(ty)),
+                    a.clone(),
+                    format!("type {ty}"),
+                    t,
+                );
+                cmp("user_can_send_state", h.user_can_send_state(actor, StateEventType::from(ty)), a, format!("type {ty}"), t);
             }
         }
         "for-user" => {
@@ -192,6 +222,13 @@ fn eval(case: &Case, t: &mut Tally) -> Vec<(String, String)> {
                         out.push((
                             format!("sender_notification_permission/v{v}/push-{push}-spec-{}", lvl >= thr),
                             format!("push condition {push}, spec reading level {lvl} vs notifications.room {thr}; power_levels {}", case.pl),
+                        ));
+                    }
+                    let via_do = h.user_can_do(actor, PowerLevelAction::TriggerNotification(NotificationPowerLevelType::Room));
+                    if via_do != helper {
+                        out.push((
+                            format!("user_can_do(TriggerNotification)/v{v}/dispatch-{via_do}-helper-{helper}"),
+                            format!("user_can_do {via_do}, user_can_trigger_room_notification {helper}; power_levels {}", case.pl),
                         ));
                     }
                     if push != helper {
